@@ -2,12 +2,73 @@
    validator kinds are covered by the re-validation correspondence, see DESIGN.md). *)
 From Coq Require Import ZArith List Bool Lia.
 From KV Require Import Base.PyVal Base.Prims Model.Validator Model.Sem
-     Proofs.Scalar Proofs.Calls Proofs.Collections Proofs.Wrappers Proofs.Total Proofs.Typed Proofs.Preds.
+     Proofs.Scalar Proofs.Calls Proofs.Collections Proofs.Records Proofs.Wrappers Proofs.Total Proofs.Typed Proofs.Preds
+     Proofs.DeriveP Proofs.DeriveR Proofs.Mono Proofs.FixRec.
 Import ListNotations.
 Open Scope nat_scope.
 
+(* containers built by set.add / d[k] = v hold no two equal members / keys: building them again changes nothing *)
+Lemma distinct_from_snoc a : forall l x,
+    distinct_from a (l ++ [x]) = distinct_from a l && negb (py_in x (a ++ l)).
+Proof.
+  intros l. revert a. induction l as [|y l IH]; intros a x; cbn [app distinct_from].
+  - rewrite app_nil_r, andb_true_r. reflexivity.
+  - rewrite IH. rewrite <- app_assoc. cbn [app]. rewrite andb_assoc. reflexivity.
+Qed.
+
+Lemma set_payload_nodup ws : forall acc,
+    distinct_from [] acc = true -> distinct_from [] (fold_left set_add ws acc) = true.
+Proof.
+  induction ws as [|x ws IH]; intros acc H; cbn [fold_left]; [exact H|]. apply IH.
+  unfold set_add. destruct (py_in x acc) eqn:Ein; [exact H|].
+  rewrite distinct_from_snoc, H. cbn [app]. rewrite Ein. reflexivity.
+Qed.
+
+Lemma set_payload_idem ws : fold_left set_add (fold_left set_add ws []) [] = fold_left set_add ws [].
+Proof. rewrite (set_payload_distinct (fold_left set_add ws []) []); [reflexivity|]. apply set_payload_nodup. reflexivity. Qed.
+
+Lemma keys_distinct_snoc a : forall l k v,
+    keys_distinct_from a (l ++ [(k, v)]) = keys_distinct_from a l && negb (dict_has (a ++ l) k).
+Proof.
+  intros l. revert a. induction l as [|[k0 v0] l IH]; intros a k v; cbn [app keys_distinct_from].
+  - rewrite app_nil_r, andb_true_r. reflexivity.
+  - rewrite IH. rewrite <- app_assoc. cbn [app]. rewrite andb_assoc. reflexivity.
+Qed.
+
+Lemma dict_has_keys a b k : map fst a = map fst b -> dict_has a k = dict_has b k.
+Proof.
+  unfold dict_has. revert b. induction a as [|[k0 v0] a IH]; intros [|[k1 v1] b] H; try discriminate; [reflexivity|].
+  cbn [map fst] in H. injection H as -> H. cbn [dict_get]. destruct (py_eq k1 k); [reflexivity|]. apply IH; exact H.
+Qed.
+
+Lemma keys_distinct_keys : forall l l' a a',
+    map fst l = map fst l' -> map fst a = map fst a' -> keys_distinct_from a l = keys_distinct_from a' l'.
+Proof.
+  induction l as [|[k v] l IH]; intros [|[k' v'] l'] a a' H Ha; try discriminate; [reflexivity|].
+  cbn [map fst] in H. injection H as -> H. cbn [keys_distinct_from].
+  rewrite (dict_has_keys a a' k' Ha). f_equal. apply IH; [exact H|]. rewrite !map_app, Ha. reflexivity.
+Qed.
+
+Lemma dict_set_keys_same d k v : dict_has d k = true -> map fst (dict_set d k v) = map fst d.
+Proof.
+  unfold dict_has. induction d as [|[k0 v0] d IH]; cbn [dict_get dict_set]; [discriminate|].
+  destruct (py_eq k0 k); cbn [map fst]; [reflexivity|]. intros H. rewrite IH by exact H. reflexivity.
+Qed.
+
+Lemma map_payload_nodup pairs : forall acc,
+    keys_distinct_from [] acc = true ->
+    keys_distinct_from [] (fold_left (fun d q => dict_set d (fst q) (snd q)) pairs acc) = true.
+Proof.
+  induction pairs as [|[k v] pairs IH]; intros acc H; cbn [fold_left fst snd]; [exact H|]. apply IH.
+  destruct (dict_has acc k) eqn:Eh.
+  - rewrite (keys_distinct_keys (dict_set acc k v) acc [] [] (dict_set_keys_same acc k v Eh) eq_refl). exact H.
+  - rewrite (dict_set_fresh acc k v Eh), keys_distinct_snoc, H. cbn [app]. rewrite Eh. reflexivity.
+Qed.
+
 Section Fix.
   Variable E : env.
+  (* extra fuel that lets every declared default of a record class pass its field validator *)
+  Variable D : nat.
 
   (* processors are idempotent on the target type and stay inside it *)
   Definition procs_stable (t : pytype) (pre : list processor) : Prop :=
@@ -29,6 +90,14 @@ Section Fix.
       match vs with [] => True | v :: r => fp_ok v /\ all r end in
     let fix all_id (vs : list validator) : Prop :=
       match vs with [] => True | v :: r => identity_variant v /\ all_id r end in
+    let fix all_kv (l : list (pyval * validator)) : Prop :=
+      match l with
+      | [] => True
+      | (_, KeyNotRequired inner) :: r => fp_ok inner /\ all_kv r
+      | (_, v) :: r => fp_ok v /\ all_kv r
+      end in
+    let fix all_sch (l : list (pyval * (validator * bool))) : Prop :=
+      match l with [] => True | (_, (v, _)) :: r => fp_ok v /\ all_sch r end in
     match v with
     | Scalar k co pre ps aps =>
         (co = None \/ (co = default_coercer k /\ co <> None)) /\ procs_stable (ktype k) pre
@@ -39,7 +108,21 @@ Section Fix.
     | UTupleV item ps aps co =>
         (co = None \/ co = Some CoTupleOrList) /\ fp_ok item /\
         Forall (len_only VTuple) ps /\ Forall (alen_only VTuple) aps
+    | SetV item [] [] None => fp_ok item
+    | MapV kv vv [] [] None => fp_ok kv /\ fp_ok vv
     | NTupleV fields _ co => (co = None \/ co = Some CoTupleOrList) /\ all fields
+    | DictAnyV schema None None _ => str_keys schema = true /\ all_kv schema
+    | ClassV rk c schema None None _ None =>
+        str_keys schema = true /\ all_sch schema /\
+        match rk with
+        | RkTyped => True
+        | _ => map fst (cfields E c) = map fst schema /\
+               Forall (fun fd => forall v req, In (fst fd, (v, req)) schema ->
+                                  match snd fd with
+                                  | Some d => forall m, run E m D v d = OValid d
+                                  | None => req = true
+                                  end) (cfields E c)
+        end
     | UnionV vs => all_id vs
     | OptionalV (NoneV None) b => fp_ok b
     | MaybeV a | CacheV a => fp_ok a
@@ -57,6 +140,24 @@ Section Fix.
        match vs with [] => True | v :: r => identity_variant v /\ all_id r end) vs ->
     Forall identity_variant vs.
   Proof. induction vs as [|v vs IH]; intros H; [constructor|]. destruct H. constructor; auto. Qed.
+
+  Lemma fp_all_kv l :
+    (fix all_kv (l : list (pyval * validator)) : Prop :=
+       match l with
+       | [] => True
+       | (_, KeyNotRequired inner) :: r => fp_ok inner /\ all_kv r
+       | (_, v) :: r => fp_ok v /\ all_kv r
+       end) l -> Forall (fun e => fp_ok (unwrap_knr (snd e))) l.
+  Proof.
+    induction l as [|[k v] l IH]; intros H; [constructor|].
+    destruct v; destruct H as [H1 H2]; (constructor; [exact H1 | apply IH; exact H2]).
+  Qed.
+
+  Lemma fp_all_sch l :
+    (fix all_sch (l : list (pyval * (validator * bool))) : Prop :=
+       match l with [] => True | (_, (v, _)) :: r => fp_ok v /\ all_sch r end) l ->
+    Forall (fun e => fp_ok (fst (snd e))) l.
+  Proof. induction l as [|[k [v r]] l IH]; intros H; [constructor|]. destruct H. constructor; auto. Qed.
 
   Hypothesis oracle_typed : forall k x y, oracle E k x = Some y -> exact_type y (otype k) = true.
   Hypothesis Hlazy : forall r, fp_ok (lazy_env E r).
@@ -79,11 +180,18 @@ Section Fix.
   Variable m : mode.
   Variable n : nat.
   Let rec := run E m n.
-  Hypothesis IH : forall v x w, fp_ok v -> rec v x = OValid w -> rec v w = OValid w.
+  Let rec' := run E m (n + D).
+  Hypothesis IH : forall v x w, fp_ok v -> rec v x = OValid w -> rec' v w = OValid w.
+
+  Lemma Hle : le_run rec rec'.
+  Proof. intros v x H. apply run_mono; [lia | exact H]. Qed.
+
+  Lemma rec_pos v x w : rec v x = OValid w -> exists n0, n = S n0.
+  Proof. unfold rec. destruct n as [|n0]; [discriminate | eauto]. Qed.
 
   Lemma Forall2_fix item xs ws :
     fp_ok item -> Forall2 (fun xi w => rec item xi = OValid w) xs ws ->
-    Forall2 (fun wi w => rec item wi = OValid w) ws ws.
+    Forall2 (fun wi w => rec' item wi = OValid w) ws ws.
   Proof.
     intros Hi H. induction H as [|x w xs ws Hx _ IHf]; constructor; [eapply IH; eauto | exact IHf].
   Qed.
@@ -107,7 +215,123 @@ Section Fix.
       destruct k; cbn [default_coercer] in Hd; inversion Hd; subst; cbn [coerce_apply ktype] in *; rewrite Hw; reflexivity.
   Qed.
 
-  Theorem step_fix v x w : fp_ok v -> step E m rec v x = OValid w -> step E m rec v w = OValid w.
+  Lemma obj_stage_none self obj : obj_stage E self m None None obj = OValid obj.
+  Proof. unfold obj_stage. destruct m; reflexivity. Qed.
+
+  (* the key loop on its own payload *)
+  Lemma keys_payload_fix self keys data orig self' orig' :
+    str_keys keys = true ->
+    Forall (fun e => fp_ok (fst (snd e))) keys ->
+    present_normal rec keys data ->
+    key_errs_of rec self keys data orig = [] ->
+    let P := key_payload_of rec AbsOmit keys data in
+    has_unknown_key (map fst keys) P = false /\
+    present_normal rec' keys P /\
+    key_errs_of rec' self' keys P orig' = [] /\
+    key_payload_of rec' AbsOmit keys P = P.
+  Proof.
+    intros Hsk Hf Hn He P. unfold str_keys in Hsk. apply andb_prop in Hsk. destruct Hsk as [Hs Hnd].
+    assert (Hfix : forall k v req xv w, In (k, (v, req)) keys -> rec v xv = OValid w -> rec' v w = OValid w).
+    { intros k v req xv w Hin Hr. rewrite Forall_forall in Hf. apply (IH v xv w (Hf _ Hin) Hr). }
+    destruct (keys_fix rec rec' keys Hs Hnd data self orig Hn He Hfix self' orig' keys (fun e H => H)) as [H1 [H2 H3]].
+    split; [apply (payload_no_unknown rec keys Hs data)|]. split; [exact H3|]. split; [exact H2 | exact H1].
+  Qed.
+
+  Lemma str_keys_names {A B} (l1 : list (pyval * A)) (l2 : list (pyval * B)) :
+    map fst l1 = map fst l2 -> str_keys l2 = true -> str_keys l1 = true.
+  Proof.
+    unfold str_keys. intros Hm H. rewrite Hm.
+    replace (forallb (fun e => is_vstr (fst e)) l1) with (forallb is_vstr (map fst l1)) by apply forallb_map'.
+    rewrite Hm, forallb_map'. exact H.
+  Qed.
+
+  (* a key loop over a mapping that has every declared key with an accepted value *)
+  Lemma keys_all_present (fs : list (pyval * pyval)) self orig : forall ks : list (pyval * (validator * bool)),
+      (forall k v req, In (k, (v, req)) ks -> exists u, dict_get fs k = Some u /\ rec' v u = OValid u) ->
+      key_payload_of rec' AbsOmit ks fs
+      = map (fun e => (fst e, match dict_get fs (fst e) with Some u => u | None => VNone end)) ks /\
+      key_errs_of rec' self ks fs orig = [] /\
+      present_normal rec' ks fs.
+  Proof.
+    induction ks as [|[k [v req]] ks IHk]; intros Hall; [repeat split; constructor|].
+    destruct (IHk (fun k0 v0 r0 Hin => Hall k0 v0 r0 (or_intror Hin))) as [H1 [H2 H3]].
+    destruct (Hall k v req (or_introl eq_refl)) as [u [Hg Hu]].
+    cbn [key_payload_of key_errs_of map fst]. cbv zeta. rewrite Hg, Hu, H1. repeat split; auto.
+    constructor; [cbn [fst snd]; rewrite Hg, Hu; reflexivity | exact H3].
+  Qed.
+
+  Lemma class_fix_obj rk c schema strict data self orig :
+    rk <> RkTyped ->
+    str_keys schema = true ->
+    Forall (fun e => fp_ok (fst (snd e))) schema ->
+    map fst (cfields E c) = map fst schema ->
+    Forall (fun fd => forall v req, In (fst fd, (v, req)) schema ->
+                        match snd fd with
+                        | Some d => forall m0, run E m0 D v d = OValid d
+                        | None => req = true
+                        end) (cfields E c) ->
+    present_normal rec schema data ->
+    key_errs_of rec self schema data orig = [] ->
+    class_body E rec' (ClassV rk c schema None None strict None) rk c schema None None strict None m
+               (construct E c (key_payload_of rec AbsOmit schema data))
+    = OValid (construct E c (key_payload_of rec AbsOmit schema data)).
+  Proof.
+    intros Hrk Hsk Hsch Hnames Hdef Hn He.
+    set (P := key_payload_of rec AbsOmit schema data).
+    set (val := fun fd : pyval * option pyval =>
+                  match dict_get P (fst fd) with
+                  | Some v => v
+                  | None => match snd fd with Some d => d | None => VNone end
+                  end).
+    set (fs := map (fun fd => (fst fd, val fd)) (cfields E c)).
+    assert (Hcon : construct E c P = VObj c fs) by reflexivity.
+    rewrite Hcon.
+    pose proof Hsk as Hsk0. unfold str_keys in Hsk0. apply andb_prop in Hsk0. destruct Hsk0 as [Hs Hnd].
+    pose proof (str_keys_names _ _ Hnames Hsk) as Hskc.
+    assert (Hfix : forall k v req xv w, In (k, (v, req)) schema -> rec v xv = OValid w -> rec' v w = OValid w).
+    { intros k v req xv w Hin Hr. rewrite Forall_forall in Hsch. apply (IH v xv w (Hsch _ Hin) Hr). }
+    assert (Hfld : forall k v req, In (k, (v, req)) schema ->
+                     exists fd, In fd (cfields E c) /\ fst fd = k /\ dict_get fs k = Some (val fd) /\ rec' v (val fd) = OValid (val fd)).
+    { intros k v req Hin.
+      assert (Hk : In k (map fst (cfields E c))) by (rewrite Hnames; apply (in_map fst _ _ Hin)).
+      apply in_map_iff in Hk. destruct Hk as [fd [Hfk Hfd]]. exists fd. split; [exact Hfd|]. split; [exact Hfk|].
+      split.
+      - subst k. unfold fs. apply (dict_get_map_str val (cfields E c) fd Hskc Hfd).
+      - unfold val. rewrite Hfk. destruct (dict_get P k) as [w0|] eqn:Hg.
+        + eapply (payload_value_fix rec rec' schema Hs Hnd data); eauto.
+        + rewrite Forall_forall in Hdef. pose proof (Hdef fd Hfd v req) as Hd0. rewrite Hfk in Hd0. specialize (Hd0 Hin).
+          destruct (snd fd) as [d|].
+          * apply (run_valid_mono E m D (n + D)); [lia | apply Hd0].
+          * subst req. destruct (payload_required rec schema Hs Hnd data self orig Hn He k v Hin) as [w0 Hw0].
+            fold P in Hw0. congruence. }
+    destruct (keys_all_present fs (ClassV rk c schema None None strict None) (VDict fs) schema) as [H1 [H2 H3]].
+    { intros k v req Hin. destruct (Hfld k v req Hin) as [fd [_ [_ [Hg Hr]]]]. exists (val fd). split; assumption. }
+    apply class_accept. split; [reflexivity|]. exists (VDict fs), fs.
+    split. { apply class_gate_plain. right. split; [exact Hrk|]. exists fs. split; reflexivity. }
+    split; [reflexivity|].
+    split.
+    { intros _. unfold has_unknown_key. apply not_true_is_false. intros Hex. apply existsb_exists in Hex.
+      destruct Hex as [[k u] [Hin Hneg]]. cbn [fst] in Hneg. apply negb_true_iff in Hneg.
+      assert (Hk : In k (map fst schema)).
+      { rewrite <- Hnames. unfold fs in Hin. apply in_map_iff in Hin. destruct Hin as [fd [Heq Hfd]].
+        inversion Heq; subst. apply in_map. exact Hfd. }
+      rewrite py_in_str in Hneg; [discriminate | | exact Hk].
+      apply in_map_iff in Hk. destruct Hk as [e [<- He0]]. rewrite forallb_forall in Hs. apply (Hs _ He0). }
+    split; [exact H3|]. split; [exact H2|].
+    rewrite obj_stage_none. rewrite H1.
+    assert (Hsame : construct E c (map (fun e : pyval * (validator * bool) =>
+                       (fst e, match dict_get fs (fst e) with Some u => u | None => VNone end)) schema) = VObj c fs).
+    { unfold construct. f_equal. unfold fs. apply map_ext_in. intros fd Hfd. f_equal.
+      assert (Hk : In (fst fd) (map fst schema)) by (rewrite <- Hnames; apply in_map; exact Hfd).
+      apply in_map_iff in Hk. destruct Hk as [[k [v req]] [Hke Hin]]. cbn [fst] in Hke. subst k.
+      pose proof (dict_get_map_str (fun e : pyval * (validator * bool) =>
+                     match dict_get fs (fst e) with Some u => u | None => VNone end) schema _ Hsk Hin) as Hg2.
+      cbn [fst] in Hg2. fold fs. rewrite Hg2.
+      pose proof (dict_get_map_str val (cfields E c) fd Hskc Hfd) as Hg3. fold fs in Hg3. rewrite Hg3. reflexivity. }
+    destruct rk; try (exfalso; apply Hrk; reflexivity); rewrite Hsame; reflexivity.
+  Qed.
+
+  Theorem step_fix v x w : fp_ok v -> step E m rec v x = OValid w -> step E m rec' v w = OValid w.
   Proof.
     destruct v; cbn [step fp_ok]; intros Hf H; try contradiction.
     - destruct Hf as [Hco Hst]. eapply scalar_fix; eauto.
@@ -125,10 +349,26 @@ Section Fix.
       assert (Hxl : x = VList xs).
       { unfold exact_type in Hx. destruct x; cbn in Hx; try discriminate. cbn in Hit. inversion Hit; reflexivity. }
       subst x.
-      apply (seq_accept E TList TList VList rec _ v ps aps None m (VList ws) (VList ws) VList_inj').
+      apply (seq_accept E TList TList VList rec' _ v ps aps None m (VList ws) (VList ws) VList_inj').
       split; [exact Hs|]. exists (VList ws), ws, ws. repeat split.
       + rewrite <- Hps. symmetry. apply all_failing_len; auto. eapply Forall2_length; eauto.
       + eapply Forall2_fix; eauto.
+    - (* SetV *)
+      destruct ps; try contradiction. destruct aps; try contradiction. destruct co; try contradiction.
+      apply set_accept in H. destruct H as [Hs [y [xs [ws [Hg [Hps [Hit [Hall [Hh ->]]]]]]]]].
+      set (p := set_payload [] ws).
+      assert (Hin : forall w0, In w0 p -> In w0 ws).
+      { intros w0 Hw0. unfold p, set_payload in Hw0. apply set_payload_in in Hw0. destruct Hw0 as [[]|Hw0]. exact Hw0. }
+      apply set_accept. split; [exact Hs|]. exists (VSet p), p, p. repeat split.
+      + unfold all_failing. cbn. destruct m; reflexivity.
+      + assert (G : forall l, (forall w0, In w0 l -> In w0 ws) -> Forall2 (fun xi w => rec' v xi = OValid w) l l).
+        { induction l as [|w0 l IHl]; intros Hl; constructor; [|apply IHl; intros w1 Hw1; apply Hl; right; exact Hw1].
+          assert (Hw0 : In w0 ws) by (apply Hl; left; reflexivity).
+          clear - Hall Hw0 IH Hf. induction Hall as [|xi wi xs0 ws0 Hx _ IHa]; [destruct Hw0|].
+          destruct Hw0 as [<-|Hw0]; [eapply IH; eauto | apply IHa; exact Hw0]. }
+        apply G. exact Hin.
+      + apply Forall_forall. intros w0 Hw0. rewrite Forall_forall in Hh. apply Hh. apply Hin. exact Hw0.
+      + unfold p, set_payload. rewrite set_payload_idem. reflexivity.
     - (* UTupleV *)
       destruct Hf as [Hco [Hi [Hp Ha]]].
       apply (seq_accept E TTuple TList VTuple rec _ v ps aps co m x w VTuple_inj') in H.
@@ -140,7 +380,7 @@ Section Fix.
         - apply gate_coerced in Hg. cbn [coerce_apply] in Hg.
           destruct x; inversion Hg; subst; cbn in Hit; inversion Hit; reflexivity. }
       subst y.
-      apply (seq_accept E TTuple TList VTuple rec _ v ps aps co m (VTuple ws) (VTuple ws) VTuple_inj').
+      apply (seq_accept E TTuple TList VTuple rec' _ v ps aps co m (VTuple ws) (VTuple ws) VTuple_inj').
       split; [exact Hs|]. exists (VTuple ws), ws, ws. repeat split.
       + destruct Hco as [->| ->]; reflexivity.
       + rewrite <- Hps. symmetry. apply all_failing_len; auto. eapply Forall2_length; eauto.
@@ -173,32 +413,94 @@ Section Fix.
           -- unfold callr in *; cbn [fst snd] in *. eapply IH; eauto.
           -- apply (IHf xs); exact Hrest.
       + exact Hobj.
+    - (* MapV *)
+      destruct ps; try contradiction. destruct aps; try contradiction. destruct co; try contradiction.
+      destruct Hf as [Hfk Hfv].
+      apply map_accept in H. destruct H as [Hs [y [kvs [pairs [Hg [Hps [Hd [Hall [Hh ->]]]]]]]]].
+      set (d := map_payload [] pairs).
+      assert (Hent : forall k0 v0, In (k0, v0) d -> In k0 (map fst pairs) /\ In v0 (map snd pairs)).
+      { intros k0 v0 Hin. unfold d, map_payload in Hin. apply map_payload_entries in Hin. destruct Hin as [[[]|H1] [[]|H2]]. auto. }
+      assert (Hkfix : forall k0, In k0 (map fst pairs) -> rec' v1 k0 = OValid k0).
+      { clear - Hall IH Hfk. induction Hall as [|p q ps qs [Hk _] _ IHa]; intros k0 Hin; [destruct Hin|].
+        destruct Hin as [<-|Hin]; [eapply IH; eauto | apply IHa; exact Hin]. }
+      assert (Hvfix : forall v0, In v0 (map snd pairs) -> rec' v2 v0 = OValid v0).
+      { clear - Hall IH Hfv. induction Hall as [|p q ps qs [_ Hv] _ IHa]; intros v0 Hin; [destruct Hin|].
+        destruct Hin as [<-|Hin]; [eapply IH; eauto | apply IHa; exact Hin]. }
+      assert (Hkh : forall k0, In k0 (map fst pairs) -> hashable (chashable E) k0 = true).
+      { intros k0 Hin. apply in_map_iff in Hin. destruct Hin as [q [<- Hq]]. rewrite Forall_forall in Hh. apply (Hh q Hq). }
+      apply map_accept. split; [exact Hs|]. exists (VDict d), d, d. repeat split.
+      + unfold all_failing. cbn. destruct m; reflexivity.
+      + assert (G : forall l, (forall k0 v0, In (k0, v0) l -> In (k0, v0) d) ->
+                              Forall2 (fun p q => rec' v1 (fst p) = OValid (fst q) /\ rec' v2 (snd p) = OValid (snd q)) l l).
+        { induction l as [|[k0 v0] l IHl]; intros Hl; constructor; [|apply IHl; intros k1 w1 Hw1; apply Hl; right; exact Hw1].
+          destruct (Hent k0 v0 (Hl k0 v0 (or_introl eq_refl))) as [H1 H2]. cbn [fst snd]. split; [apply Hkfix | apply Hvfix]; assumption. }
+        apply G. auto.
+      + apply Forall_forall. intros [k0 v0] Hin. cbn [fst]. apply Hkh. apply (Hent k0 v0 Hin).
+      + unfold d, map_payload. f_equal. symmetry.
+        rewrite (map_payload_distinct (fold_left (fun d0 q => dict_set d0 (fst q) (snd q)) pairs []) []); [reflexivity|].
+        apply map_payload_nodup. reflexivity.
+    - (* DictAnyV *)
+      destruct vobj; try contradiction. destruct avobj; try contradiction.
+      destruct Hf as [Hsk Hkv]. apply fp_all_kv in Hkv.
+      apply dictany_accept in H. destruct H as [_ [data [-> [_ [Hn [He Hobj]]]]]].
+      rewrite obj_stage_none in Hobj. injection Hobj as <-.
+      assert (Hsk' : str_keys (dictany_keys schema) = true).
+      { unfold str_keys, dictany_keys in *. rewrite map_map. cbn [fst]. rewrite forallb_map'. exact Hsk. }
+      assert (Hf' : Forall (fun e => fp_ok (fst (snd e))) (dictany_keys schema)).
+      { unfold dictany_keys. apply Forall_map. cbn [fst snd]. exact Hkv. }
+      destruct (keys_payload_fix _ _ _ _ (DictAnyV schema None None strict)
+                  (VDict (key_payload_of rec AbsOmit (dictany_keys schema) data)) Hsk' Hf' Hn He) as [Hu [Hn' [He' Hp']]].
+      apply dictany_accept. split; [reflexivity|]. eexists. split; [reflexivity|].
+      assert (Hmk : map fst (dictany_keys schema) = map fst schema) by (unfold dictany_keys; rewrite map_map; reflexivity).
+      split; [intros _; rewrite <- Hmk; exact Hu|]. split; [exact Hn'|]. split; [exact He'|].
+      rewrite obj_stage_none, Hp'. reflexivity.
+    - (* ClassV *)
+      destruct vobj; try contradiction. destruct avobj; try contradiction. destruct co; try contradiction.
+      destruct Hf as [Hsk [Hsch Hrk]]. apply fp_all_sch in Hsch.
+      apply class_accept in H. destruct H as [_ [y [data [Hgate [Hd [_ [Hn [He Hobj]]]]]]]].
+      rewrite obj_stage_none in Hobj. injection Hobj as <-.
+      set (P := key_payload_of rec AbsOmit schema data) in *.
+      pose proof Hsk as Hsk0. unfold str_keys in Hsk0. apply andb_prop in Hsk0. destruct Hsk0 as [Hs Hnd].
+      assert (Hfix : forall k v req xv w, In (k, (v, req)) schema -> rec v xv = OValid w -> rec' v w = OValid w).
+      { intros k v req xv w Hin Hr. rewrite Forall_forall in Hsch. apply (IH v xv w (Hsch _ Hin) Hr). }
+      destruct rk.
+      + (* dataclass *) destruct Hrk as [Hnames Hdef].
+        apply (class_fix_obj RkData c schema strict data (ClassV RkData c schema None None strict None) y); auto; discriminate.
+      + (* named tuple *) destruct Hrk as [Hnames Hdef].
+        apply (class_fix_obj RkNamed c schema strict data (ClassV RkNamed c schema None None strict None) y); auto; discriminate.
+      + (* typed dict *)
+        destruct (keys_payload_fix (ClassV RkTyped c schema None None strict None) schema data y
+                    (ClassV RkTyped c schema None None strict None) (VDict P) Hsk Hsch Hn He) as [Hu [Hn' [He' Hp']]].
+        apply class_accept. split; [reflexivity|]. exists (VDict P), P. split; [reflexivity|]. split; [reflexivity|].
+        split; [intros _; exact Hu|]. split; [exact Hn'|]. split; [exact He'|].
+        rewrite obj_stage_none. fold P in Hp'. rewrite Hp'. reflexivity.
     - (* UnionV *)
       apply fp_all_id in Hf.
       pose proof H as H0. apply union_accept in H0. destruct H0 as [pre [v [post [-> [Hv Hpre]]]]].
       assert (Hid : identity_variant v) by (rewrite Forall_forall in Hf; apply Hf; apply in_or_app; right; left; reflexivity).
-      assert (w = x) by (eapply Hid; exact Hv). subst w. exact H.
+      assert (w = x) by (eapply Hid; exact Hv). subst w.
+      pose proof (step_mono E m rec rec' (UnionV (pre ++ v :: post)) x Hle) as Hm. cbn [step] in Hm.
+      rewrite Hm; [exact H | rewrite H; discriminate].
     - (* OptionalV *)
       destruct v1; try contradiction. destruct co; [contradiction|].
       pose proof H as H0. apply union_accept in H0. destruct H0 as [pre [v [post [Hvs [Hv Hpre]]]]].
+      destruct (rec_pos _ _ _ Hv) as [n0 Hn0].
+      assert (Hnone : forall y, rec' (NoneV None) y = none_body E (NoneV None) None y).
+      { intros y. unfold rec'. rewrite Hn0. reflexivity. }
       destruct pre as [|p0 pre].
-      + cbn [app] in Hvs. inversion Hvs; subst.
+      + cbn [app] in Hvs. inversion Hvs; subst v post.
         assert (w = VNone).
-        { unfold rec in Hv. destruct n; [discriminate|]. cbn [run step] in Hv. unfold none_body in Hv. destruct x; inversion Hv; reflexivity. }
+        { unfold rec in Hv. rewrite Hn0 in Hv. cbn [run step] in Hv. unfold none_body in Hv. destruct x; inversion Hv; reflexivity. }
         subst w. apply union_accept. exists [], (NoneV None), [v2]. repeat split; auto.
-        unfold rec. destruct n; [discriminate|]. reflexivity.
+        rewrite Hnone. reflexivity.
       + cbn [app] in Hvs. inversion Hvs as [[Hp0 Hrest]]. destruct pre; cbn [app] in Hrest; inversion Hrest; subst.
         2:{ destruct pre; discriminate. }
         pose proof (IH _ _ _ Hf Hv) as Hw.
         apply union_accept.
-        destruct (rec (NoneV None) w) eqn:Hn.
-        * assert (w0 = VNone /\ w = VNone) as [-> ->].
-          { unfold rec in Hn. destruct n; [discriminate|]. cbn [run step] in Hn. unfold none_body in Hn. destruct w; inversion Hn; auto. }
-          exists [], (NoneV None), [v]. repeat split; auto.
-        * exists [NoneV None], v, []. repeat split; auto. constructor; [eexists; exact Hn | constructor].
-        * exfalso. unfold rec in Hn. destruct n; [unfold rec in Hv; discriminate|]. cbn [run step] in Hn. unfold none_body in Hn. destruct w; discriminate.
-        * exfalso. unfold rec in Hn. destruct n; [unfold rec in Hv; discriminate|]. cbn [run step] in Hn. unfold none_body in Hn. destruct w; discriminate.
-        * exfalso. unfold rec in Hn, Hv. destruct n; [|cbn [run step] in Hn; unfold none_body in Hn; destruct w; discriminate]. discriminate.
+        destruct w.
+        1:{ exists [], (NoneV None), [v]. repeat split; auto; try (rewrite Hnone; reflexivity). }
+        all: (exists [NoneV None], v, []; repeat split; auto;
+              constructor; [eexists; rewrite Hnone; reflexivity | constructor]).
     - (* MaybeV *)
       unfold maybe_body in *. destruct x; try discriminate.
       + destruct (rec v x) eqn:Hr; inversion H; subst. rewrite (IH _ _ _ Hf Hr). reflexivity.
@@ -208,13 +510,22 @@ Section Fix.
   Qed.
 End Fix.
 
-Theorem run_fix E :
+Theorem run_fix_fuel E D :
   (forall k x y, oracle E k x = Some y -> exact_type y (otype k) = true) ->
-  (forall r, fp_ok E (lazy_env E r)) ->
-  forall m fuel v x w, fp_ok E v -> run E m fuel v x = OValid w -> run E m fuel v w = OValid w.
+  (forall r, fp_ok E D (lazy_env E r)) ->
+  forall m fuel v x w, fp_ok E D v -> run E m fuel v x = OValid w -> run E m (fuel + D) v w = OValid w.
 Proof.
   intros Ho Hl m. induction fuel as [|n IHn]; intros v x w Hf H; [discriminate|].
-  cbn [run] in *. eapply step_fix; eauto.
+  cbn [run Nat.add] in *. eapply step_fix; eauto.
+Qed.
+
+(* without record-class defaults no extra fuel is needed *)
+Theorem run_fix E :
+  (forall k x y, oracle E k x = Some y -> exact_type y (otype k) = true) ->
+  (forall r, fp_ok E 0 (lazy_env E r)) ->
+  forall m fuel v x w, fp_ok E 0 v -> run E m fuel v x = OValid w -> run E m fuel v w = OValid w.
+Proof.
+  intros Ho Hl m fuel v x w Hf H. rewrite <- (Nat.add_0_r fuel) at 1. eapply run_fix_fuel; eauto.
 Qed.
 
 (* built-in processors are stable *)
